@@ -66,3 +66,37 @@ Qed.
 
 Lemma MaxXRefEntries_overflows : exists n, int64 n /\ 0 <= n /\ MaxXRefEntries n < 0.
 Proof. exists (2 ^ 58). split; [unfold int64; pw; lia|]. split; [pw; lia|]. vm_compute. reflexivity. Qed.
+
+(* ---- JBIG2: the translated workLimit (pixel-decode operations allowed per input) ---- *)
+From GoPdf.Gen Require Import Gen_C08dct.
+
+Definition work_ideal (n : Z) : Z := Z.min (67108864 + 4096 * Z.max n 0) 536870912.
+
+Lemma dswrap_small x : int64 x -> Gen_C08dct.swrap 64 x = x.
+Proof. intro H. change (Gen_C08dct.swrap 64 x) with (Gen_Limits.swrap 64 x). apply swrap_small. exact H. Qed.
+
+Lemma swrap_const : Gen_C08dct.swrap 64 (536870912 - 67108864) = 469762048.
+Proof. reflexivity. Qed.
+
+Lemma workLimit_ideal n : int64 n -> jbig2_workLimit n = work_ideal n.
+Proof.
+  intro H. unfold jbig2_workLimit, work_ideal, int64 in *. pw.
+  rewrite swrap_const. change (Z.quot 469762048 4096) with 114688.
+  destruct (n <? 0) eqn:E1.
+  - change (114688 <? 0) with false. cbv iota.
+    rewrite (dswrap_small (4096 * 0)) by (unfold int64; pw; lia).
+    rewrite dswrap_small by (unfold int64; pw; lia). lia.
+  - destruct (114688 <? n) eqn:E2; [lia|].
+    rewrite (dswrap_small (4096 * n)) by (unfold int64; pw; lia).
+    rewrite dswrap_small by (unfold int64; pw; lia). lia.
+Qed.
+
+Lemma workLimit_props :
+  (forall n, int64 n -> 67108864 <= jbig2_workLimit n <= 536870912 /\
+                        jbig2_workLimit n <= 67108864 + 4096 * Z.max n 0) /\
+  (forall a b, int64 a -> int64 b -> a <= b -> jbig2_workLimit a <= jbig2_workLimit b).
+Proof.
+  split.
+  - intros n H. rewrite workLimit_ideal by exact H. unfold work_ideal. lia.
+  - intros a b Ha Hb Hab. rewrite !workLimit_ideal by assumption. unfold work_ideal. lia.
+Qed.
